@@ -30,7 +30,9 @@ ANCHORS = [("dateparser.freshness_date_parser", "FreshnessDateDataParser.get_kwa
 
 N_CASES = {"quick": 90000, "thorough": 2400000}
 COUNTS = [0, 1, 2, 3, 11, 12, 13, 28, 29, 30, 31, 59, 60, 61, 99, 100, 365, 366, 1000, 4999, 5000]
-DECIMALS = ["0.5", "1.5", "2.5", "0.25", "10.75", "2,5", "0,5", "7,25"]
+DECIMALS = ["0.5", "1.5", "2.5", "0.25", "10.75", "2,5", "0,5", "7,25",
+            # fractions that begin with a zero (still exact in binary and in whole microseconds of a second)
+            "1.0625", "0.0625", "3.03125", "0.015625", "2,0625", "12.03125", "1.50", "02.5"]
 LEAP_YEARS = [1804, 1896, 1904, 2000, 2096, 2104, 2196, 2024]
 CLOCKS = [("at 3 pm", (15, 0, 0)), ("15:30", (15, 30, 0)), ("10:05:33", (10, 5, 33)), ("12 am", (0, 0, 0)),
           ("at 12:00 pm", (12, 0, 0)), ("at 00:00", (0, 0, 0)), ("23:59:59", (23, 59, 59)), ("at 9 am", (9, 0, 0))]
